@@ -456,7 +456,10 @@ class YAMLPath:
                 demarc_count += 1
                 continue
 
-            elif seeking_anchor_mark and char == "&":
+            elif (seeking_anchor_mark
+                  and char == "&"
+                  and collector_level < 1
+            ):
                 # Found an expected (permissible) ANCHOR mark
                 seeking_anchor_mark = False
                 segment_type = PathSegmentTypes.ANCHOR
